@@ -146,12 +146,31 @@ def check(prop, tier):
         for line in lines:
             m = re.search(r'\\"k\\":(\d+).{0,4000}?\\"exit\\":(\d)', line)
             strata.setdefault((min(int(m.group(1)), 2), m.group(2)) if m else '?', []).append(line)
-        n = 700 if tier == 'quick' else 8000
+        n = 540 if tier == 'quick' else 8000
         pick = []
         for k, ls in sorted(strata.items()):
             pick += rnd.sample(ls, min(len(ls), n // len(strata)))
+        # scenarios in which a worker can run ahead of the first failure: a failing patch that is not the last one,
+        # with a later patch touching another name component; they get a share of the sample of their own
+        def run_ahead_relevant(sc):
+            o = sc['outs'][0]['out']
+            f = o['failingPatch']
+            if not f or f >= len(sc['series']):
+                return False
+            comp = components(sc['series'])
+            failing = {comp[r['path']] for r in o['rejects']} | {comp[fp['old'] if fp['old'] != 'NULL' else fp['new']] for fp in sc['series'][f - 1]['fps']}
+            later = {comp[fp['old'] if fp['old'] != 'NULL' else fp['new']] for pt in sc['series'][f:] for fp in pt['fps']}
+            return bool(later - failing) or len(later | failing) > 1
+        extra = []
+        for line in rnd.sample(lines, min(len(lines), 6000)):
+            if '\\"failingPatch\\":1' in line:
+                sc = json.loads(json.loads(line))
+                if not sc['outs'][0]['out']['adversarial'] and run_ahead_relevant(sc):
+                    extra.append(line)
+            if len(extra) >= n // 3:
+                break
         jobs = []
-        for li, line in enumerate(pick):
+        for li, line in enumerate(pick + extra):
             sc = json.loads(json.loads(line))
             if sc['outs'][0]['out']['adversarial']:
                 continue
